@@ -371,6 +371,14 @@ func (a *API) WalkOp(name string, nReplies int) ([]OpPath, *Walker, error) {
 		}
 		return "", false, false
 	}
+	// pointer-typed reply fields are nil when their bytes did not decode
+	w.Nullable = func(t *Term) bool {
+		if t.Op != "param" || !strings.HasPrefix(t.Name, "reply") || t.Typ == nil {
+			return false
+		}
+		_, ok := t.Typ.Underlying().(*types.Pointer)
+		return ok
+	}
 	var sends []SendRec
 	var sendErrs []*Term
 	w.OnCall = func(w *Walker, cname string, args []*Term, c *ssa.CallCommon, in ssa.Instruction) (*Term, bool) {
